@@ -36,6 +36,8 @@ import Osmium.Lemmas.Tile
 import Osmium.Lemmas.TileRound
 import Osmium.Lemmas.TileRoundTrip
 import Osmium.Generated.C18Consts
+import Osmium.Generated.Src
+import Osmium.Lemmas.CxxSem
 
 namespace Osmium.Tile.C18
 
@@ -400,5 +402,50 @@ example : doubleToFix ⟨fun q => q, 6378137, 1 / 57, 57, 10000000⟩
     (xToLon ⟨fun q => q, 6378137, 1 / 57, 57, 10000000⟩ (lonToX ⟨fun q => q, 6378137, 1 / 57, 57, 10000000⟩ 1800000000))
     = .ok 1800000000 :=
   roundtrip_x _ rfl (by norm_num) (by norm_num) (by norm_num) _ (by decide) (by decide)
+
+/-! ### source ties (tools/cxx2lean.py): the functions REGENERATED from /repo's C++ source on every run
+    (Osmium/Generated/Src.lean) equal the hand-written model functions the theorems above are about. -/
+
+section SrcTies
+open Osmium.Generated Osmium.CxxSem
+
+/-- `num_tiles_in_zoom(zoom)` = `1U << zoom` = `numTilesInZoom`; the shift is defined exactly for zoom < 32 -/
+theorem src_tie_num_tiles_in_zoom (z : Nat) (h : z < 32) :
+    Src.Tile.num_tiles_in_zoom (z : Int) = (numTilesInZoom z : Int) ∧
+    Src.Tile.num_tiles_in_zoom_defined (z : Int) = true := by
+  constructor
+  · unfold Src.Tile.num_tiles_in_zoom numTilesInZoom
+    have : shl 32 1 (z : Int) = (((1 <<< z) % 2 ^ 32 : Nat) : Int) := shl_nat 32 1 z
+    rw [this, Nat.one_shiftLeft, Nat.mod_eq_of_lt (Nat.pow_lt_pow_right (by decide) h)]
+  · simp only [Src.Tile.num_tiles_in_zoom_defined, shiftOk_iff]; omega
+
+example : ∃ z : Nat, z < 32 := ⟨30, by decide⟩
+
+/-- `Location::valid()` = `locValid` -/
+theorem src_tie_loc_valid (lon lat : Int) : Src.Location.Location.valid ⟨lon, lat⟩ = locValid lon lat := by
+  dsimp only [locValid]
+  rw [Bool.eq_iff_iff]
+  simp [Src.Location.Location.valid, Src.Location.Location.precision, Src.Location.coordinate_precision] <;> omega
+
+/-- `Tile::valid()` = `Tile.valid` on every tile whose members are uint32 values; never undefined
+    (the shift is guarded by `z > max_zoom`) -/
+theorem src_tie_tile_valid (x y z : Nat) (hx : x < 2 ^ 32) (hy : y < 2 ^ 32) (hz : z < 2 ^ 32) :
+    Src.Tile.Tile.valid ⟨x, y, z⟩ = Tile.valid ⟨x, y, z⟩ ∧ Src.Tile.Tile.valid_defined ⟨x, y, z⟩ = true := by
+  dsimp only [Tile.valid, maxZoom, Src.Tile.Tile.valid, Src.Tile.Tile.valid_defined, Src.Tile.Tile.max_zoom]
+  by_cases hz' : z ≤ 30
+  · have e := src_tie_num_tiles_in_zoom z (by omega)
+    have h1 : ¬ ((z : Int) > 30) := by omega
+    have h2 : ¬ (z > 30) := by omega
+    refine ⟨?_, ?_⟩
+    · rw [Bool.eq_iff_iff]
+      simp [e.1, h1, h2, numTilesInZoom]
+    · simp [e.2, h1]
+  · have h1 : ((z : Int) > 30) := by omega
+    have h2 : (z > 30) := by omega
+    simp [h1, h2]
+
+example : ∃ x y z : Nat, x < 2 ^ 32 ∧ y < 2 ^ 32 ∧ z < 2 ^ 32 := ⟨5, 7, 4, by decide⟩
+
+end SrcTies
 
 end Osmium.Tile.C18
